@@ -268,7 +268,15 @@ def r18_5(run):
     run.ob('R18.5', el, el.node, 'a SOCKSPort line maps to a unix or TCP endpoint ignoring option words', ok, slot='line-to-endpoint', message='_endpoint_from_socksport_line changed')
 
 
+def r18_6(run):
+    tc = run.idx.cls('TorConfig', 'torconfig')
+    us = [CSE(run), run.idx.find_method(tc, 'create_socks_endpoint'), run.idx.find_method(run.idx.cls('TorClientEndpoint', MOD), 'connect')]
+    k = dropped_deferreds(run, 'R18.6', us, 'SOCKS endpoint selection')
+    run.floor('R18.6', 'suspension points in the SOCKS selection coroutines', k, 6)
+
+
 RULES = [
+    ('R18.6', 'no dropped Deferred in the SOCKS selection coroutines (the SETCONF adding a port is awaited before the endpoint is returned)', r18_6),
     ('R18.1', 'integrity flow: values paired with SOCKSPort in the SETCONF reach it from the GETCONF answer through identity-preserving operations only, plus the new entry', r18_1),
     ('R18.1b', 'path completeness: the re-listed list is a single copy of the pre-strip list of existing ports', r18_1b),
     ('R18.2', 'one set_conf outside loops', r18_2_3),
@@ -280,6 +288,7 @@ RULES = [
 from ..selftest import M  # noqa: E402
 F, FC = 'txtorcon/endpoints.py', 'txtorcon/torconfig.py'
 MUTANTS = [
+    M('setconf-not-awaited', F, "        yield control_protocol.set_conf(*args)", "        control_protocol.set_conf(*args)", ['R18.6']),
     M('relist-stripped', F, "        for p in socks_lines:\n            args.append('SOCKSPort')", "        for p in socks_ports + [socks_config]:\n            args.append('SOCKSPort')", ['R18.1']),
     M('relist-only-new', F, "        for p in socks_lines:\n            args.append('SOCKSPort')", "        for p in [socks_config]:\n            args.append('SOCKSPort')", ['R18.1']),
     M('new-not-listed', F, "        socks_lines.append(socks_config)\n", "", ['R18.1']),
